@@ -139,6 +139,9 @@ type V1Case struct {
 	EndHeight      uint64 `json:"endHeight"`
 	WindowSize     uint64 `json:"windowSize"`
 	Pays           []Amt  `json:"pays"` // base "bal" = valid renter payout
+	// MissedShift moves this many thousandths of the renter's missed payout to the void output before the payments (a
+	// consensus-valid revision the two parties agreed on earlier): the renter then has less to lose than to spend
+	MissedShift int `json:"missedShift,omitempty"`
 	Filesize       uint64 `json:"filesize"`
 	Renew          string `json:"renew"` // "", "rhp2", "rhp3"
 	NewPayout      string `json:"newPayout"`
@@ -288,6 +291,17 @@ func checkV1(c V1Case) error {
 		return failf("v1/form/unlockhash", "formation unlock hash is not the 2-of-2 of renter and host key")
 	}
 	cur := fc
+	if c.MissedShift > 0 && len(cur.MissedProofOutputs) == 3 {
+		m := toBig(cur.MissedProofOutputs[0].Value)
+		d := new(big.Int).Quo(mul(m, big.NewInt(int64(c.MissedShift))), big.NewInt(1000))
+		cur.MissedProofOutputs = append([]types.SiacoinOutput(nil), cur.MissedProofOutputs...)
+		cur.MissedProofOutputs[0].Value = fromBig(sub(m, d))
+		cur.MissedProofOutputs[2].Value = fromBig(sum(toBig(cur.MissedProofOutputs[2].Value), d))
+		cur.RevisionNumber++
+		if d.Sign() > 0 {
+			labels = append(labels, "v1:renter-missed-below-valid")
+		}
+	}
 	for i, a := range c.Pays {
 		validR, missedR := toBig(cur.ValidProofOutputs[0].Value), toBig(cur.MissedProofOutputs[0].Value)
 		amount := sum(dec(a.V), big.NewInt(a.D))
@@ -310,7 +324,8 @@ func checkV1(c V1Case) error {
 		}
 		if !ok {
 			if rev.FileContract.RevisionNumber != cur.RevisionNumber || outSum(rev.FileContract.ValidProofOutputs[:1]).Cmp(validR) != 0 ||
-				toBig(rev.FileContract.ValidProofOutputs[1].Value).Cmp(toBig(cur.ValidProofOutputs[1].Value)) != 0 {
+				toBig(rev.FileContract.ValidProofOutputs[1].Value).Cmp(toBig(cur.ValidProofOutputs[1].Value)) != 0 ||
+				!reflect.DeepEqual(rev.FileContract.MissedProofOutputs, cur.MissedProofOutputs) || !reflect.DeepEqual(rev.FileContract.ValidProofOutputs, cur.ValidProofOutputs) {
 				return failf("v1/pay/error-modified", "PayByContract failed but modified the revision")
 			}
 			labels = append(labels, "v1:pay-insufficient")
@@ -524,6 +539,9 @@ func drawV1(t *rapid.T) V1Case {
 	c.ContractPrice = genCur(t, "contractprice", 0, 90)
 	c.EndHeight = rapid.OneOf(rapid.Uint64Range(1, 5000), rapid.Uint64Range(1, 1<<20)).Draw(t, "end")
 	c.WindowSize = rapid.OneOf(rapid.Just(uint64(144)), rapid.Uint64Range(1, 1000)).Draw(t, "window")
+	if rapid.IntRange(0, 3).Draw(t, "missedShifted") == 0 {
+		c.MissedShift = rapid.SampledFrom([]int{1, 10, 250, 500, 900, 1000}).Draw(t, "missedShift")
+	}
 	np := rapid.IntRange(0, 4).Draw(t, "npays")
 	for i := 0; i < np; i++ {
 		if rapid.SampledFrom([]bool{false, true, false}).Draw(t, "pay-bal") {
